@@ -324,6 +324,10 @@ def run_equalizer(behaviours, prefix, dedicated=True, timeout=2, recycle=5, keep
         t_prev = w.clock
         try:
             k = 0
+            if consumer[0] in ('close', 'drop') and consumer[1] == 0:   # the caller changes its mind before taking anything
+                if consumer[0] == 'close':
+                    gen.close()
+                gen = iter(())
             for c in gen:
                 out.append({'id': c.recording_id, 'status': c.comparator_status.equality_status.name, 'message': c.comparator_status.message,
                             'playback': c.playback.original_recording.id if c.playback is not None else None,
